@@ -636,7 +636,7 @@ func runPlans(t *testing.T) {
 	for _, c := range first {
 		emit(c, "corpus")
 	}
-	n := r.N(1200, 20000)
+	n := r.N(900, 20000)
 	maxCores := 12
 	if r.Tier != "quick" {
 		maxCores = 16
@@ -688,7 +688,7 @@ func runValidate(t *testing.T) {
 	r := vh.New(t, vh.PropEnv("C04"), "validate")
 	r.Coq("From Verif Require Import Base.GoFloat Cpumem.Types Cpumem.Schedule Cpumem.Calc Cpumem.SchedCase.\nClose Scope Z_scope.", "SchedCase.vcase", "SchedCase.v_agree", "SchedCase.v_ok")
 	g := gen{r}
-	n := r.N(300, 5000)
+	n := r.N(160, 5000)
 	for i := 0; i < n; i++ {
 		info := g.node(100, nodeOpts{maxCores: 8, malformed: i%2 == 1})
 		cp := copyNI(info)
@@ -935,7 +935,7 @@ func runDeploy(t *testing.T) {
 	for _, c := range first {
 		emit(c)
 	}
-	n := r.N(400, 8000)
+	n := r.N(320, 8000)
 	cfgs := [][2]int{{100, -1}, {100, -1}, {100, -1}, {100, 2}, {100, 1}, {10, -1}, {1000, 3}, {1, -1}, {7, -1}}
 	for i := 0; i < n && timeouts < 3; i++ {
 		cf := cfgs[g.intn(len(cfgs))]
@@ -1181,7 +1181,7 @@ func runRealloc(t *testing.T) {
 			emit(reallocCase{info: copyNI(alt), base: 100, maxShare: -1, origin: wAlt, raw: map[string]any{"keep-cpu-bind": true}, label: "numa-origin-node-first"})
 		}
 	}
-	n := r.N(300, 6000)
+	n := r.N(220, 6000)
 	cfgs := [][2]int{{100, -1}, {100, -1}, {100, 2}, {10, -1}, {1000, 3}}
 	for i := 0; i < n && timeouts < 3; i++ {
 		cf := cfgs[g.intn(len(cfgs))]
